@@ -9,7 +9,7 @@
    wr       : write_model; read_model  (the reloaded copy continues the history)
    adduser  : read_user_lexicon on both copies *)
 EXTENDS VModel, VRewrite, VTemplate, Json, IOUtils, TLCExt
-CONSTANTS Prop, DevStarCollision, DevMergeNoBigram
+CONSTANTS Prop, DevStarCollision, DevMergeNoBigram, DevDualClamp
 
 Rec == ndJsonDeserialize(IOEnv.TRACE)
 VARIABLES l, tin, m, M, mext,       \* inputs, model, merged model, and the extension history the model event belongs to
@@ -29,7 +29,22 @@ TSession == /\ Is("tsession") /\ tin' = E.in
             /\ m' = <<>> /\ M' = <<>> /\ mext' = <<>>
             /\ ext' = [mem |-> <<>>, disk |-> <<>>] /\ users' = [mem |-> <<>>, disk |-> <<>>] /\ hasDisk' = FALSE /\ memo' = {}
 
+(* After training the trainer drops the feature strings that carry no weight, and ONLY those: a
+   string that keeps a weight must keep its name, otherwise a later user row with the same
+   expansion is interned under a new, weightless id (it would neither receive the trained
+   parameters - C14 - nor the id of the equal string - C18).  Checked on the model as trained,
+   before any user lexicon is added. *)
+Named(map, id) == \E k \in 1..Len(map) : map[k].id = id
+UsedRight(mm) == UNION {{mm.bwi[a][k][1] : k \in 1..Len(mm.bwi[a])} : a \in 1..Len(mm.bwi)}
+PruneOK(mm) ==
+   /\ \A id \in 1..Len(mm.uwi) : (mm.uwi[id] # 0) <=> Named(mm.umap, id)
+   /\ \A k \in 1..Len(mm.umap) : mm.umap[k].id <= Len(mm.uwi)
+   /\ \A a \in 1..(Len(mm.bwi) - 1) : (mm.bwi[a + 1] # <<>>) <=> Named(mm.lmap, a)
+   /\ \A b \in UsedRight(mm) \ {0} : Named(mm.rmap, b)
+   /\ \A k \in 1..Len(mm.rmap) : mm.rmap[k].id \in UsedRight(mm)
+
 ModelEv == /\ Is("model") /\ m' = E.m /\ M' = TLCEval(Merged(E.m)) /\ mext' = ext.mem
+           /\ (ext.mem = <<>> => AnyA({"C14", "C18"}, "weighted-feature-strings-keep-their-names", PruneOK(E.m)))
            /\ UNCHANGED <<tin, ext, users, hasDisk, memo>>
 
 WR == /\ Is("wr")
@@ -94,6 +109,33 @@ SmallAgrees(p, sm) ==
    /\ "mat" \in DOMAIN sm
    /\ sm.nr = p.nr /\ sm.nl = p.nl
    /\ \A x \in 1..Len(p.mat) : Abs(sm.mat[x] - p.mat[x]) <= K + 1
+
+(* F27 (known finding): the dual connector keeps the costs of K - 8 templates pre-summed in a
+   16-bit matrix and CLAMPS that partial sum (C07 says so: "whenever the pre-summed part fits in
+   16 bits").  Which templates go there is decided by a greedy search whose ties are broken in
+   hash order, so it is not logged; the deviation applies to a cell when SOME choice of K - 8
+   templates has a partial sum outside 16 bits.  The raw connector is never excused. *)
+BgFeatAt(rows, id, k) == IF id = 0 THEN "" ELSE IF k <= Len(rows[id]) THEN rows[id][k] ELSE "*"
+LineCost(bg, rf, lf) ==
+   IF rf = "*" \/ lf = "*" THEN 0
+   ELSE LET S == {n \in 1..Len(bg.cost) : bg.cost[n].rf = rf /\ bg.cost[n].lf = lf} IN
+        IF S = {} THEN 0 ELSE bg.cost[CHOOSE n \in S : TRUE].c
+CellCosts(bg, i, j) == [k \in 1..K |-> LineCost(bg, BgFeatAt(bg.R, i, k), BgFeatAt(bg.L, j, k))]
+(* sum of the n largest entries of a sequence of integers *)
+RECURSIVE TopSum(_, _, _)
+TopSum(cs, idx, n) == IF n = 0 \/ idx = {} THEN 0
+                      ELSE LET best == CHOOSE a \in idx : \A b \in idx : cs[a] >= cs[b] IN
+                           cs[best] + TopSum(cs, idx \ {best}, n - 1)
+MayClamp(bg, i, j) ==
+   K > 8 /\ LET cs == CellCosts(bg, i, j)  neg == [k \in 1..K |-> 0 - cs[k]] IN
+            \/ TopSum(cs, 1..K, K - 8) > 32767
+            \/ TopSum(neg, 1..K, K - 8) > 32768
+DualAgrees(p, sm, bg) ==
+   /\ "mat" \in DOMAIN sm
+   /\ sm.nr = p.nr /\ sm.nl = p.nl
+   /\ \A x \in 1..Len(p.mat) :
+        \/ Abs(sm.mat[x] - p.mat[x]) <= K + 1
+        \/ (DevDualClamp /\ MayClamp(bg, (x - 1) % p.nr, (x - 1) \div p.nr))
 
 (* C18: the tuple printed for a word's connection id is the expansion of its rewritten
    features, position by position, except '*' where training dropped the feature *)
@@ -163,7 +205,7 @@ Gen ==
             /\ (users[who] = users.mem => A("C18", "user-rows-feature-ids-name-their-own-expansions", C18User(E.bg, p, users[who]))))
       /\ (E.compiled => /\ A("C14", "ids-inside-matrix-and-costs-16-bit", C14Ids(p) /\ C14Costs16(p))
                         /\ A("C16", "small-dictionary-agrees-with-matrix",
-                             (StarListed(E.bg) /\ DevStarCollision) \/ (SmallAgrees(p, E.small.raw) /\ SmallAgrees(p, E.small.dual))))
+                             (StarListed(E.bg) /\ DevStarCollision) \/ (SmallAgrees(p, E.small.raw) /\ DualAgrees(p, E.small.dual, E.bg))))
       /\ A("C15", "same-model-state-same-files", \A x \in keyed : \A y \in memo : (x[1] = y[1] /\ x[2] = y[2]) => x[3] = y[3])
       /\ memo' = memo \cup keyed
    /\ UNCHANGED <<tin, m, M, mext, ext, users, hasDisk>>
